@@ -27,6 +27,8 @@ CONSTANTS
     Base,            \* rows already on the terminal
     Align,           \* "top" / "bottom"
     M0,              \* "e": bars start with an empty message, "id": with their own digit
+    Tgt,             \* "auto" (spy, or spy_hz when Hz > 0), "hidden", "pipe" (a Term that is not a tty)
+    Faults,          \* k values for fail_at: the k-th next terminal call fails (once / sticky); {} = no faults
     Pre,             \* bars already added (Multi) when the enumeration starts
     Once,            \* TRUE: finish-type operations only on unfinished bars (keeps focused families small)
     TabWs            \* initial tab widths given through with_tab_width (8 = default, builder not called)
@@ -84,9 +86,10 @@ AliveBars == {b \in S.ids : S.bars[b].alive}
 NextId == Cardinality(S.ids) + 1
 NoStatic == Statics(S) = {}
 
+TargetName == IF Tgt = "auto" THEN (IF Hz = 0 THEN "spy" ELSE "spy_hz") ELSE Tgt
 NewOp0(name, b, tpl, fin, tw, tf) ==
     [op |-> name, b |-> b, len |-> 3, tpl |-> tpl, fin |-> fin, tabw_first |-> tf, fm |-> <<70>>, m0 |-> IF M0 = "id" THEN <<48 + b>> ELSE <<>>, p0 |-> <<>>, pos0 |-> 0,
-     tabw |-> tw, target |-> IF Hz = 0 THEN "spy" ELSE "spy_hz", hz |-> Hz, idx |-> 0, b2 |-> 0, dt |-> 0]
+     tabw |-> tw, target |-> TargetName, hz |-> Hz, idx |-> 0, b2 |-> 0, dt |-> 0]
 
 NewOp(name, b, tpl, fin) == NewOp0(name, b, tpl, fin, 8, FALSE)
 (* with_tab_width before or after with_style: every order must expand consistently (C16) *)
@@ -134,6 +137,9 @@ OpsNow ==
                        [] nm = "mp_remove" -> IF S.bars[b].inmp THEN { BarOp(nm, b, dt) } ELSE {}
                        [] OTHER -> {})
                     : nm \in BarOps } : <<b, dt>> \in AliveBars \X DTs } \cup
+    (* fault injection (C18): once per history *)
+    (IF S.ids # {} /\ ~\E j \in 1..Len(hist) : hist[j].op = "fail_at"
+       THEN { [op |-> "fail_at", b |-> 0, dt |-> 0, n |-> k, sticky |-> st] : k \in Faults, st \in BOOLEAN } ELSE {}) \cup
     (* operations on the MultiProgress *)
     (IF Multi
        THEN UNION { (CASE nm \in {"mp_println", "mp_suspend"}
@@ -159,12 +165,12 @@ PreOps(n) == IF n = 0 THEN <<>> ELSE Append(PreOps(n - 1), [NewOp("add", n, CHOO
 RECURSIVE PreState(_, _, _)
 PreState(S0, ops, i) == IF i > Len(ops) THEN S0 ELSE PreState(Apply(S0, Full(ops[i])).S, ops, i + 1)
 
-Init == /\ S = PreState(SInit(W, H, Multi, FALSE, Align), PreOps(Pre), 1) /\ hist = PreOps(Pre) /\ nlog = 0 /\ done = FALSE
+Init == /\ S = PreState(SInit(W, H, Multi, Multi /\ Tgt \in {"hidden", "pipe"}, Align), PreOps(Pre), 1) /\ hist = PreOps(Pre) /\ nlog = 0 /\ done = FALSE
 
 Dead == ~Multi /\ S.ids # {} /\ AliveBars = {}
 
 Cfg == [w |-> W, h |-> H, base |-> Base] @@
-       (IF Multi THEN [mp |-> [target |-> IF Hz = 0 THEN "spy" ELSE "spy_hz", hz |-> Hz, align |-> Align]] ELSE <<>>)
+       (IF Multi THEN [mp |-> [target |-> TargetName, hz |-> Hz, align |-> Align]] ELSE <<>>)
 
 Step == /\ Len(hist) < D
         /\ ~Dead
